@@ -108,7 +108,7 @@ func hdStressLimit(t *testing.T, env verifEnv, sink *caseSink) {
 // Outcomes in which the session was attached and then closed by the racing end (which had already begun) are
 // counted, not judged. A test, not a proof; a failing round is a direct violation with the round as replay.
 func hdStressResume(t *testing.T, env verifEnv, sink *caseSink) {
-	rounds := 600
+	rounds := 480
 	if env.thorough() {
 		rounds = 6000
 	}
@@ -288,7 +288,10 @@ func hdStressResume(t *testing.T, env verifEnv, sink *caseSink) {
 			for csid := range hub.clients {
 				if _, ok := hub.sessions[csid]; !ok {
 					info["stale_clients_entry"] = csid
-					return &verdict{fmt.Sprintf("the clients table has an entry for session %d which is not in the session table", csid), info}
+					if csid == sid && gotSid != "" {
+						return &verdict{fmt.Sprintf("the hello reply of the resume names session %d, which was not a live session any more when the connection was attached: it is not in the session table, and the clients table keeps an entry for it", csid), info}
+					}
+					return &verdict{fmt.Sprintf("the clients table has an entry for session %d which is not in the session table (a connection was attached to a session that had ended)", csid), info}
 				}
 			}
 			live, isLive := hub.sessions[sid]
